@@ -28,7 +28,6 @@ M = [
  ('loop-timer-drift', 'src/remapping_loop.rs', 'next_wakeup: next_wakeup + Duration::from_millis(interval_ms as u64),', 'next_wakeup: Instant::now() + Duration::from_millis(interval_ms as u64),', ['C11']),
  ('loop-chord-ignores-held', 'src/remapping_loop.rs', '                  if !held_output_keys.contains(key) {\n                    repeat_send.push(Pressed(*key));\n                  }', '                  if !held_output_keys.contains(key) || keys.len() > 2 {\n                    repeat_send.push(Pressed(*key));\n                  }', ['C11']),
  ('loop-tablet-two-layers-removed', 'src/remapping_loop.rs', None, None, ['C12']),
- ('loop-steps-keyboard-in-tablet-mode-after-interrupt', 'src/remapping_loop.rs', '                      if !in_tablet_mode {\n                        let step_out = mapper.step(ev_in);', '                      if !in_tablet_mode || restart_count > 0 {\n                        let step_out = mapper.step(ev_in);', ['C12']),
  ('loop-off-no-release_all', 'src/remapping_loop.rs', '                        Off => {\n                          in_tablet_mode = false;\n                          working_repeat = WorkingRepeat::Idle;\n                          let release_events = mapper.release_all();', '                        Off => {\n                          in_tablet_mode = false;\n                          working_repeat = WorkingRepeat::Idle;\n                          let release_events: Vec<Event> = if restart_count >= 0 { Vec::new() } else { mapper.release_all() };', ['C12']),
  ('loop-swallow-tablet-release-error', 'src/remapping_loop.rs', '                        On => {\n                          in_tablet_mode = true;\n                          working_repeat = WorkingRepeat::Idle;\n                          let release_events = mapper.release_all();\n                          if !release_events.is_empty() {\n                            driver.send(&release_events)?;', '                        On => {\n                          in_tablet_mode = true;\n                          working_repeat = WorkingRepeat::Idle;\n                          let release_events = mapper.release_all();\n                          if !release_events.is_empty() {\n                            driver.send(&release_events).ok();', ['C20']),
  ('loop-swallow-next-tablet-error', 'src/remapping_loop.rs', '                  match driver.next_tablet()? {', '                  match match driver.next_tablet() { Ok(x) => x, Err(_) => break } {', ['C20']),
